@@ -356,6 +356,8 @@ def check(prog: Program, res: Result) -> None:
     res.floor("C04-reg", 40)
     res.floor("C04-pad", 2)
     res.floor("C04-corner", 3)
+    from . import c02
+    res.borrow(c02.check_conv, "C04-corner", prog)
     res.assumptions += ["sub-pixel interpolation error, exact output sizes and the affine itself (kornia) are not decided"]
 
 
